@@ -159,10 +159,34 @@ def run(ctx: Context) -> None:
                               f"`{norm(d_)[:80]}` reorders the qubit operands of a gate before the mode lists are built: for "
                               f"non-symmetric two-qubit gates (cx with control index > target index) control and target are exchanged",
                               norm(d_)[:100])
+    # the same through a local: names bound (transitively) to something computed from `.qubits`
+    derived_q: set = set()
+    ch_ = True
+    while ch_:
+        ch_ = False
+        for a_ in ast.walk(enc.node):
+            if isinstance(a_, ast.Assign):
+                uses = any((isinstance(x, ast.Attribute) and x.attr == "qubits") or (isinstance(x, ast.Name) and x.id in derived_q) for x in ast.walk(a_.value))
+                if uses and not any(isinstance(x, ast.Call) and (dotted(x.func) or "").split(".")[-1] in ORDER_DESTROYING for x in [a_.value]):
+                    for t_ in a_.targets:
+                        for x in ast.walk(t_):
+                            if isinstance(x, ast.Name) and x.id not in derived_q and isinstance(t_, ast.Name):
+                                derived_q.add(x.id)
+                                ch_ = True
+    for c_ in ast.walk(enc.node):
+        if isinstance(c_, ast.Call) and (dotted(c_.func) or "").split(".")[-1] in ORDER_DESTROYING and c_.args \
+                and any(isinstance(y, ast.Name) and y.id in derived_q for y in ast.walk(c_.args[0])) \
+                and not any(isinstance(y, ast.Attribute) and y.attr == "qubits" for y in ast.walk(c_)):
+            key = f"{MOD}:_encode_dual_rail_from_qiskit|qubit-operand-order"
+            ctx.violation("C19c", key, m.path, c_.lineno,
+                          f"`{norm(c_)[:80]}` reorders the qubit operands of a gate (through a local computed from `.qubits`) before the mode lists "
+                          f"are built: for non-symmetric two-qubit gates (cx with control index > target index) control and target are exchanged",
+                          norm(c_)[:100])
     if n_q == 0:
         raise AnalysisError("C19c: anchor vanished: no use of instruction.qubits in _encode_dual_rail_from_qiskit")
     ctx.rule("C19c", "the order of a gate's qubit operands is not sorted/uniqued before modes are assigned")
     # ---- (d) bits are resolved to circuit-global indices, never to positions in an instruction's own operand list ------
+    check_condition_index(ctx, m)
     ctx.rule("C19d", "a qubit / classical bit is never resolved by its position in an instruction's own operand list (`instr.clbits.index(bit)`): "
                      "conditions and mode assignments refer to circuit-global bit indices")
 
@@ -198,6 +222,46 @@ def run(ctx: Context) -> None:
         ctx.violation("C19d", f"{MOD}|instruction-local-bit-position", m.path, c.lineno,
                       f"`{norm(c)[:70]}` is the position of the bit inside this instruction's own operand list, not its index in the circuit: an "
                       f"`if_else` on any classical bit other than the first one is conditioned on the wrong measurement outcome", norm(c)[:100])
+
+
+def check_condition_index(ctx: Context, m) -> None:
+    ctx.rule("C19e", "the condition built for a classical bit reads the measurement outcomes at positions computed from that bit's index, never at "
+                     "fixed positions (first / last pair recorded)")
+    fn = m.functions.get("_get_condition_function")
+    if fn is None:
+        raise AnalysisError("anchor vanished: _get_condition_function")
+    params = set(fn.params())
+    inner = [f for f in ast.walk(fn.node) if isinstance(f, ast.FunctionDef) and f is not fn.node]
+    n = 0
+    for f in inner:
+        ps = [a.arg for a in f.args.args]
+        if not ps:
+            continue
+        out_name = ps[0]
+        # locals computed from the bit's index count as the bit's index
+        dep_names = set(params)
+        ch_ = True
+        while ch_:
+            ch_ = False
+            for a_ in ast.walk(f):
+                if isinstance(a_, ast.Assign) and len(a_.targets) == 1 and isinstance(a_.targets[0], ast.Name) and a_.targets[0].id not in dep_names \
+                        and any(isinstance(x, ast.Name) and x.id in dep_names for x in ast.walk(a_.value)) \
+                        and not any(isinstance(x, ast.Name) and x.id == out_name for x in ast.walk(a_.value)):
+                    dep_names.add(a_.targets[0].id)
+                    ch_ = True
+        for sub in ast.walk(f):
+            if isinstance(sub, ast.Subscript) and isinstance(sub.value, ast.Name) and sub.value.id == out_name and isinstance(sub.ctx, ast.Load):
+                n += 1
+                dep = any(isinstance(x, ast.Name) and x.id in dep_names for x in ast.walk(sub.slice))
+                key = f"{MOD}:_get_condition_function|outcome index {norm(sub.slice)[:30]}"
+                ctx.obligation("C19e", key, dep, f"{ctx.relpath(m.path)}:{sub.lineno}")
+                if not dep:
+                    ctx.violation("C19e", key, m.path, sub.lineno,
+                                  f"`{norm(sub)}` reads the outcomes at a fixed position instead of the position of the bit the condition is built "
+                                  f"for: a block conditioned on a measurement that is not the latest (first) one tests another qubit's outcome",
+                                  norm(sub)[:100])
+    if n == 0:
+        raise AnalysisError("C19e: the condition function no longer indexes the outcomes (undecided)")
 
 
 def _translate(idx, reg, m, call: ast.Call, angles: List[sp.Symbol], depth: int = 0):
